@@ -122,6 +122,8 @@ class HeapMixin:
             if str_kind(v) != base:
                 raise Unsupported('wrong string kind stored: %r' % (v,))
             zv = to_zstr(v)
+        elif base == 'seqint':
+            zv = v
         else:
             raise Unsupported('unwrap %s' % desc)
         return zv, isnone
@@ -186,7 +188,7 @@ class HeapMixin:
             o = self.heap.get(v)
             if o.forward is not None:
                 return self.store_obj_into_map(mref, idx, o.forward, node)
-            if not (isinstance(o, Obj) and o.cls is m.elem_cls):
+            if not (isinstance(o, Obj) and (o.cls is m.elem_cls or o.cls == m.elem_cls)):
                 raise Unsupported('storing %r into map of %s' % (o.cls, m.elem_cls))
             self.flatten_obj_into(m, mref, idx, v, '', m.elem_cls)
         else:
@@ -209,7 +211,7 @@ class HeapMixin:
                     m.shared[key] = o.fields.get(f)
                 continue
             if f not in o.fields:
-                raise Unsupported('field %s missing on %s when stored into map' % (f, cls.name))
+                raise Unsupported('field %s missing on %s when stored into map' % (f, getattr(cls, 'name', cls)))
             val = o.fields[f]
             if d.startswith('obj:'):
                 self.flatten_obj_into(m, mref, idx, val, prefix + f + '.', self.class_named(d[4:]))
@@ -222,7 +224,7 @@ class HeapMixin:
                 m.arrays[path + '?'] = z3.Store(m.arrays[path + '?'], idx, zbool(isnone))
         extra = set(o.fields) - set(lay)
         if extra:
-            raise Unsupported('undeclared fields %s on %s' % (sorted(extra), cls.name))
+            raise Unsupported('undeclared fields %s on %s' % (sorted(extra), getattr(cls, 'name', cls)))
         o.forward = View(mref.oid, idx, prefix, cls)
 
     def materialize_view(self, view):
@@ -439,7 +441,9 @@ class HeapMixin:
         if key is None:
             self.raise_builtin('KeyError', key, node=node)
         k = zint(self.int_of(key))
-        if not self.branch(z3.Select(m.dom, k), 'inmap@%s' % getattr(node, 'lineno', '?')):
+        if self.spec_mode:
+            pass        # specification text guards the access (k in map) itself
+        elif not self.branch(z3.Select(m.dom, k), 'inmap@%s' % getattr(node, 'lineno', '?')):
             self.raise_builtin('KeyError', key, node=node)
         if m.elem_cls is None:
             d = m.layout['']
@@ -631,12 +635,46 @@ class HeapMixin:
         return True
 
     def obj_equals(self, a, b):
+        if isinstance(a, Ref) and isinstance(b, Ref):
+            oa, ob = self.heap.get(a), self.heap.get(b)
+            if isinstance(oa, ListObj) and isinstance(ob, ListObj) and oa.tail is None and ob.tail is None:
+                if len(oa.items) != len(ob.items):
+                    return False
+                return zand(*[self.equals(x, y) for x, y in zip(oa.items, ob.items)])
+            if isinstance(oa, Obj) and isinstance(ob, Obj) and oa.cls == ob.cls == 'builtins.bytearray':
+                return self.equals(oa.fields['data'], ob.fields['data'])
+            if isinstance(oa, Obj) and isinstance(ob, Obj) and oa.cls == ob.cls == 'hyperframe.flags.Flags':
+                ks = set(oa.fields['set']) | set(ob.fields['set'])
+                return zand(*[zbool(oa.fields['set'].get(k, False)) == zbool(ob.fields['set'].get(k, False)) for k in ks])
         r = self.extern_obj_equals(a, b)
         if r is not NotImplemented:
             return r
         return False
 
     def obj_contains(self, ref, o, item, node):
+        if isinstance(o, Obj) and o.cls == 'hyperframe.flags.Flags':
+            from .deps_model import flags_contains
+            return flags_contains(self, ref, o, item, node)
+        if isinstance(o, Obj):
+            f = self.find_extern_method(o.cls, '__contains__')
+            if f is not None and not (isinstance(o.cls, extract.ClassInfo) and self.P.lookup_method(o.cls, '__contains__')):
+                return f(self, ref, o, [item], {}, node)
+        if isinstance(o, Obj) and isinstance(o.cls, extract.ClassInfo):
+            c = self.P.lookup_method(o.cls, '__contains__')
+            if c is not None:
+                return self.truth(self.call_function(c, [ref, item], {}, node))
+            # MutableMapping.__contains__: try self[key] / except KeyError
+            gi = self.P.lookup_method(o.cls, '__getitem__')
+            if gi is not None:
+                if self.spec_mode:
+                    raise Unsupported('in on mapping object inside specification')
+                try:
+                    self.call_function(gi, [ref, item], {}, node)
+                    return True
+                except PyRaise as pr:
+                    if self.exc_matches(pr.exc, ExternV('builtins.KeyError')):
+                        return False
+                    raise
         raise Unsupported('in on object %r' % (o.cls,))
 
     def iter_obj(self, ref, o, node):
@@ -666,7 +704,8 @@ class HeapMixin:
         return r
 
     def view_getitem(self, view, idx, node):
-        raise Unsupported('subscript on view')
+        from .deps_model import view_getitem_dispatch
+        return view_getitem_dispatch(self, view, idx, node)
 
     def descriptor_setattr(self, ref, o, attr, v, node):
         """Data descriptors declared as class attributes (config booleans)."""
